@@ -14,7 +14,6 @@ Kramer Harrison, 2023
 import math
 import numpy as np
 import matplotlib.pyplot as plt
-from scipy.optimize import least_squares
 
 
 class ZernikeStandard:
@@ -474,6 +473,10 @@ class ZernikeFit:
         """
         Fits the Zernike coefficients by minimizing the objective function.
         """
-        initial_guess = [0 for _ in range(self.num_terms)]
-        result = least_squares(self._objective, initial_guess)
-        self.zernike.coeffs = result.x
+        # the model is linear in the coefficients: solve the least-squares
+        # problem directly (exact for any scale of the data)
+        self.zernike.coeffs = np.ones(self.num_terms)
+        terms = self.zernike.terms(np.ravel(self.radius), np.ravel(self.phi))
+        A = np.column_stack([term * np.ones(self.num_pts) for term in terms])
+        coeffs, _, _, _ = np.linalg.lstsq(A, np.ravel(self.z), rcond=None)
+        self.zernike.coeffs = coeffs
